@@ -153,6 +153,11 @@ func (c *compiler) compile(o interface{}) error {
 	if x, ok := o.(HasDataDefinitions); ok {
 		if _, alreadyCompiled := c.pool[x]; !alreadyCompiled {
 			c.pool[x] = struct{}{}
+			if _, isCase := o.(*ChoiceCase); !isCase {
+				if err := uniqueNodeNames(x, x.DataDefinitions(), make(map[string]struct{})); err != nil {
+					return err
+				}
+			}
 			for _, y := range x.DataDefinitions() {
 				if err := c.compile(y); err != nil {
 					return err
@@ -180,6 +185,27 @@ func (c *compiler) compile(o interface{}) error {
 				return err
 			}
 		}
+	}
+	return nil
+}
+
+// uniqueNodeNames checks the nodes of a parent including the ones inside the cases of its
+// choices, they share one namespace and a uses may have brought them in after the parent
+// indexed its children
+func uniqueNodeNames(parent HasDataDefinitions, defs []Definition, seen map[string]struct{}) error {
+	for _, d := range defs {
+		if ch, isChoice := d.(*Choice); isChoice {
+			for _, id := range ch.CaseIdents() {
+				if err := uniqueNodeNames(parent, ch.cases[id].DataDefinitions(), seen); err != nil {
+					return err
+				}
+			}
+			continue
+		}
+		if _, exists := seen[d.Ident()]; exists {
+			return fmt.Errorf("%s - conflict, more than one node named %s", SchemaPath(parent), d.Ident())
+		}
+		seen[d.Ident()] = struct{}{}
 	}
 	return nil
 }
